@@ -36,6 +36,7 @@ import (
 	"fmt"
 	"math/big"
 	"reflect"
+	"regexp"
 	"runtime"
 	"sort"
 	"strings"
@@ -614,9 +615,12 @@ func vC18RunCase(res *vs.Result, c *vC18Case) {
 	if o.Panic != "" {
 		f.add("translates-without-panic", "read", "translation panicked: "+o.Panic)
 	} else if o.Err != nil {
-		// the property speaks about valid documents only
+		// every generated document is valid by construction (on the unchanged
+		// tree the parser accepts all of them): a valid document for which no
+		// groups, manifest and version are derived is not translated faithfully
 		res.Count("rejected_by_parser", 1)
 		vC18NoteRejected(res, c, o.Err)
+		f.add("valid-document-is-translated", vC18RejectClass(o.Err), "the parser rejects a document that is valid by the generator's rules: "+o.Err.Error())
 	} else {
 		res.Count("accepted", 1)
 		res.Distinct(vC18Shape(&c.Doc))
@@ -750,11 +754,21 @@ func vC18DirectedDocs() []vC18Directed {
 
 // ---------------------------------------------------------------------------
 
+// vC18RejectClass: the error text without quoted names and numbers.
+func vC18RejectClass(err error) string {
+	s := regexp.MustCompile(`"[^"]*"|[0-9]+`).ReplaceAllString(err.Error(), "")
+	s = strings.Join(strings.Fields(s), "-")
+	if len(s) > 60 {
+		s = s[:60]
+	}
+	return s
+}
+
 func TestVerif_C18(t *testing.T) {
 	res := vs.NewResult("C18", "exploration",
 		"structured descriptions D (1-4 services with image/command/args/env and 0-3 exposes port/as/proto/accept/to, 1-3 compute profiles with cpu as Nm / decimal / whole and memory+storage with every suffix and fractional mantissas, 1-3 placements with attributes, signedBy and per-profile prices, deployment map with counts) rendered to SDL v2 YAML by the harness's own emitter plus 4 random mapping-key permutations each; expected groups and manifest computed from D with exact arithmetic and compared field by field; same text read twice and every permutation must give the same groups, manifest and version; manifest must pass ValidateManifestWithGroupSpecs against the groups of the same document. distinct = structural shape of the document (numbers of services/profiles/placements/exposes/targets, optional fields present, literal forms)")
 	res.Assume("documented semantics transcribed by hand: cpu literal Nm = N milli-cpu, bare number = cpus; size suffixes k/M/G/T/P/E = 10^3k, Ki/Mi/Gi/Ti/Pi/Ei = 2^10k, none = bytes; a global expose is shared-http iff TCP and external port (as, else port) is 80, else random-port; no proto = TCP, proto word case-insensitive")
-	res.Assume("only documents the generator believes valid are produced (unit and group limits, >=1 global expose, hostnames unique in the manifest); a document the parser rejects is counted (rejected_by_parser), not judged")
+	res.Assume("only documents the generator believes valid are produced (unit and group limits, >=1 global expose, hostnames unique in the manifest); a document the parser rejects is a violation (valid-document-is-translated): the unchanged tree accepts every generated document")
 	res.Assume("attribute lists, endpoint lists and expose lists carry no declared order and are compared as multisets; group order and service order are compared with placement-name / service-name (bytewise) order")
 	defer func() {
 		if err := res.Write(); err != nil {
